@@ -1,6 +1,6 @@
 (* C02 — property theorems only (each closed by `exact <lemma>` and followed by Print Assumptions). *)
 From Coq Require Import List NArith Bool Arith Permutation Sorted.
-From MW Require Import Common.Str C01.Model C02.Model C02.Proofs C02.ProofsQuotes.
+From MW Require Import Common.Str C01.Model C02.Model C02.Proofs C02.ProofsQuotes C02.ModelLines C02.ProofsLines.
 Import ListNotations.
 
 (* Sections (core.py:90-146,178-193): for every sequence of headings (any levels, any captions) and blocks, the
@@ -54,3 +54,55 @@ Example C02_sections_example :
   = [SB 1; SS 2 10 [SB 2; SS 3 11 [SB 3]]; SS 2 12 []; SS 1 13 [SB 4]]%N.
 Proof. exact (eq_refl _). Qed.
 Print Assumptions C02_sections_example.
+
+(* Lists (core.py:388-547 ParseLines.analyze / collect_items / splitdl; model C02/ModelLines.v mirrors the imperative loops:
+   startpos loop, outer while, collect_items loop with the inner while that swallows lines with a longer prefix, recursion on
+   the item's lines after stripping one prefix char, splitdl for '; term : description'): for every sequence of list lines
+   whose prefixes are over * # ; : (any number of lines, any prefix lengths, with or without a top-level colon), the fuelled
+   model never runs out of fuel (3 * (number of lines + total prefix length) + 3 suffices), never raises, and returns exactly
+   the denoted prefix tree den_list. *)
+Theorem C02_lists_nest : forall ls : list line, valid_lines ls ->
+  analyze_model (analyze_fuel ls) ls = LOk (den_list (line_fuel ls) ls).
+Proof. exact analyze_den_list. Qed.
+Print Assumptions C02_lists_nest.
+
+Theorem C02_lists_nest_any_fuel : forall (ls : list line) (fuel : nat), valid_lines ls -> analyze_fuel ls <= fuel ->
+  analyze_model fuel ls = LOk (den_list (line_fuel ls) ls).
+Proof. exact analyze_den_list_fuel. Qed.
+Print Assumptions C02_lists_nest_any_fuel.
+
+(* the denoted list trees hold the text of all lines in source order, unless a one-line definition item `p; term : desc`
+   is directly followed by a line whose prefix extends `p;` (dl_swallows) *)
+Theorem C02_lists_text_in_order : forall ls : list line, no_dl_swallow ls ->
+  leaves_l (den_list (line_fuel ls) ls) = leaves_l (flat_map line_text ls).
+Proof. exact den_list_text_in_order. Qed.
+Print Assumptions C02_lists_text_in_order.
+
+(* ... and in that excluded case the code (and its model) DOES re-order the text: `;1 : 2` followed by `;* 3` gives
+   dt[1, ul[li[3]]], dd[2] — leaves 1,3,2 (proposed fix: /verif/fixes/C02-deflist-sublist-order.diff) *)
+Theorem C02_lists_text_in_order_refuted :
+  valid_lines swallow_lines /\ ~ no_dl_swallow swallow_lines /\
+  analyze_model (analyze_fuel swallow_lines) swallow_lines =
+    LOk [Node LDt (wd 1 ++ [Node LUl [Node LLi (wd 3)]]); Node LDd (wd 2)] /\
+  den_list (line_fuel swallow_lines) swallow_lines = [Node LDt (wd 1 ++ [Node LUl [Node LLi (wd 3)]]); Node LDd (wd 2)] /\
+  leaves_l (den_list (line_fuel swallow_lines) swallow_lines) = [(1, false, false); (3, false, false); (2, false, false)]%N /\
+  leaves_l (flat_map line_text swallow_lines) = [(1, false, false); (2, false, false); (3, false, false)]%N.
+Proof. exact den_list_text_in_order_refuted. Qed.
+Print Assumptions C02_lists_text_in_order_refuted.
+
+Example C02_lists_example :
+  valid_lines ex_lines /\
+  analyze_model (analyze_fuel ex_lines) ex_lines =
+    LOk [Node LUl [Node LLi (wd 1 ++ [Node LUl [Node LLi (wd 2)]]); Node LLi (wd 3)];
+        Node LDt (wd 4); Node LDd (wd 5);
+        Node LUl [Node LLi [Node LDt (wd 6); Node LDd (wd 7)]];
+        Node LDd (wd 8 ++ wd 9)] /\
+  (forall fuel, fuel < 5 -> analyze_model fuel ex_lines = LFuel) /\
+  analyze_model 9 [([7%N], wd 1, None)] = LAttrError.
+Proof. exact analyze_example. Qed.
+Print Assumptions C02_lists_example.
+
+Example C02_lists_text_example : no_dl_swallow ex_lines /\
+  leaves_l (den_list (line_fuel ex_lines) ex_lines) = map (fun w => (w, false, false)) [1; 2; 3; 4; 5; 6; 7; 8; 9]%N.
+Proof. exact text_in_order_example. Qed.
+Print Assumptions C02_lists_text_example.
